@@ -17,7 +17,7 @@ const RULE: &str = "cases = (generated encrypted archive, alteration, read order
 (scaled: every byte, bit index rotating; production: 6 positions per chunk + every header byte), chunk swap / duplicate / \
 delete, chunk spliced from a second archive built from the same program (other key), truncation at 5 places per chunk, \
 header-field edits (zero / 0xff a field, swap wrapped keys, recipient count +-1, layer bits); then the normal reader opens \
-the altered bytes and reads every listed file in a rotated order with varying buffer sizes, re-opening files. Oracle: open \
+the altered bytes (every other time with the repair-only option failsafe_return_data_even_unauthenticated set on its configuration) and reads every listed file in a rotated order with varying buffer sizes, re-opening files. Oracle: open \
 may fail; otherwise every listed name is an original name and every byte returned by an Ok read equals the original byte at \
 that position (never more bytes than the original); reads may end in Err; the unaltered archive must open and read back \
 fully. Panics are C08's business and only counted. Non-trivial = alteration at or after the header end, or in a header \
@@ -143,7 +143,14 @@ fn apply_alt(a: &Arch, other: &Arch, alt: &Alt) -> (Vec<u8>, bool) {
 /// Read the (possibly altered) archive; Err(description) on a byte that differs / an unknown name.
 fn read_and_compare(a: &Arch, bytes: &[u8], rot: usize, st: &mut Stats, expect_all: bool) -> Result<(), String> {
     let r = util::catch(|| -> Result<(), String> {
-        let mut rd = match prog::open(bytes, &a.reader_keys) {
+        // every other alteration is read with a reader configuration on which the repair-only option
+        // `failsafe_return_data_even_unauthenticated()` was set: the normal reader must not honour it
+        let mut cfg = prog::reader_config(&a.reader_keys);
+        if rot % 2 == 1 {
+            cfg.failsafe_return_data_even_unauthenticated();
+        }
+        let opened = mla::ArchiveReader::from_config(std::io::Cursor::new(bytes), cfg).map_err(|e| format!("{e:?}"));
+        let mut rd = match opened {
             Ok(r) => r,
             Err(e) => {
                 if expect_all {
@@ -259,8 +266,9 @@ fn oracle(c: &Case, st: &mut Stats) -> Result<(), String> {
     st.label(format!("layers={}", prog::layers_name(a.res.layers)));
     st.label(format!("chunks={}", a.nchunks().min(8)));
     // control
-    st.eval(1);
+    st.eval(2);
     read_and_compare(&a, &a.bytes, 0, st, true)?;
+    read_and_compare(&a, &a.bytes, 1, st, true)?;
     let alts = match &c.only {
         Some(x) => vec![x.clone()],
         None => alterations(&a),
